@@ -86,6 +86,18 @@ def check_call(contract: Contract, call: Callable[[], Any], ns_args: Dict[str, A
         signal.signal(signal.SIGALRM, old)
     if raised is not None:
         out.observed = "raised %s: %s" % (type(raised).__name__, str(raised)[:200])
+        for xname, fn in (getattr(contract.impl, "raises_post", None) or {}).items():
+            if exc_matches(raised, xname):
+                ns.__dict__["exc"] = raised
+                try:
+                    bad = [label for label, c in fn(ns).items() if not bool(c)]
+                except Exception as e:
+                    bad = ["<evaluation: %s>" % e]
+                if bad:
+                    out.ok = False
+                    out.failed_clause = "raises-post#%s#%s" % (xname, bad[0])
+                    out.detail = "exceptional postcondition %s is false" % bad[0]
+                    return out
         matched = None
         for xname in contract.raises:
             if exc_matches(raised, xname):
